@@ -13,4 +13,7 @@ template<> struct vstl_vec_cap<unsigned char> { enum { value = BS_CAP }; };
 template<> struct vstl_vec_cap<Session*> { enum { value = NSESS }; };
 template<> struct vstl_vec_cap<unsigned long> { enum { value = 2 }; };
 template<> struct vstl_set_cap<unsigned long> { enum { value = 2 }; };
+class OSAttribute;
+template<> struct vstl_map_cap<unsigned long, OSAttribute> { enum { value = 2 }; };    // nested attribute maps (not exercised here)
+template<> struct vstl_map_cap<unsigned long, OSAttribute*> { enum { value = 2 }; };   // attributes of a session object
 #endif
